@@ -36,7 +36,7 @@ func init() {
 	props = append(props, &hlib.Prop{ID: "C02", Gen: genC02, Exec: execC02})
 }
 
-var c02Funcs = []string{"rate", "irate", "increase", "resets"}
+var c02Funcs = counterNames() // rate, irate, increase, resets: every name of the universe the specification calls a counter function
 
 func monotoneReplicas(reps [][]smp) bool {
 	for _, r := range reps {
@@ -73,8 +73,24 @@ func execC02Body(c *hlib.Ctx, tok []string) string {
 	if mm {
 		c.Violation("att-mismatch", "AtT() differs from the timestamp of At()")
 	}
+	if sortedReplicas(reps) && !isCounterFn(f) {
+		// the other side of the classification: no counter function, no adjustment — every observed
+		// sample is held (timestamp and value) by a replica
+		have := map[smp]bool{}
+		for _, rp := range reps {
+			for _, x := range rp {
+				have[x] = true
+			}
+		}
+		for _, o := range tr {
+			if o.kind == 's' && (o.raw != "" || !have[o.s]) {
+				c.Violation("non-counter-adjusted", fmt.Sprintf("function %q is no counter function, but the returned sample %s is held by no replica (counter adjustment applied)", f, fmtSmp(o.s)))
+				break
+			}
+		}
+	}
 	if !sortedReplicas(reps) || !monotoneReplicas(reps) || !isCounterFn(f) {
-		return fmtTrace(tr) // outside the domain of the C02 oracle (recorded only)
+		return fmtTrace(tr) // outside the domain of the C02 monotonicity oracle (recorded only)
 	}
 	// Next-only read of a fresh iterator
 	d, dp := reference(f, reps)
@@ -214,6 +230,7 @@ func genC02(c *hlib.Ctx) {
 		l := genLayout(c, true)
 		c.Count(fmt.Sprintf("replicas:%d", len(l.reps)))
 		f := c02Funcs[r.Intn(len(c02Funcs))]
+		c.Count("func:" + f)
 		// independent start values: a replica that restarted later counts from a lower base
 		for ri := range l.reps {
 			if r.Chance(1, 3) {
@@ -237,6 +254,28 @@ func genC02(c *hlib.Ctx) {
 				c.Count("answer:some-value-adjusted")
 			}
 		}
+	}
+	// the other side of the classification boundary (recorded and compared with the model, judged by
+	// C02's second clause below): counter-shaped replicas read under a NON-counter function name
+	// must come out unadjusted — every observed sample is held by a replica
+	for i := 0; i < budget(c, 600, 6000); i++ {
+		l := genLayout(c, true)
+		for ri := range l.reps {
+			if r.Chance(1, 2) {
+				d := r.I64Range(0, 5000)
+				for si := range l.reps[ri] {
+					l.reps[ri][si].v += d
+				}
+			}
+		}
+		all := nonCounterNames()
+		f := all[r.Intn(len(all))]
+		if r.Chance(1, 2) {
+			f = []string{"xrate", "xincrease", "xdelta", "delta", "idelta", "deriv", "none"}[r.Intn(7)]
+		}
+		c.Count("boundary:non-counter-name:" + funcClass(f))
+		line := fmt.Sprintf("dd.run %s %s d", f, fmtReplicas(l.reps))
+		c.Do(line, nontrivialLayout(l.reps))
 	}
 	// fractional stream (oracle only)
 	for i := 0; i < budget(c, 1500, 20000); i++ {
